@@ -1,6 +1,7 @@
 import Holpy.C02.Heap
 import Holpy.C02.Toy
 import Holpy.C02.ProofsHeap
+import Holpy.C02.ProofsHeapGood3
 /-
 C02 — property theorems about the heap view (`Heap.lean`: the walk of `check_proof` over the Python
 object graph, objects by index, shared and cyclic objects allowed).
@@ -49,5 +50,49 @@ def exCircular : Store :=
    [[0, 1, 2], [2]]⟩
 
 example : hCheckProof (Toy.rules []) ⟨true, false, 0⟩ 5 exCircular 0 = .error (.check .idMismatch) := rfl
+
+/-- Soundness of `check_proof` proved directly on the OBJECT GRAPH (no unfolding, shared and cyclic
+objects allowed): if the heap walk accepts, every statement that became citable and the returned
+theorem are no stronger than a sequent the rules derive from the statements nobody computed (the
+placeholders; under `compute_only` also the stated sequents taken on trust).  The derivation is
+built in walk order; aliasing cannot help because an accepted walk writes only cells whose ids
+extend the current position, so the statements already cited stay what they were. -/
+theorem heap_accepted_justified (R : Rules) (cfg : Cfg) (fuel : Nat) (st : Store) (root : Nat) (res : HRes)
+    (h : hCheckProof R cfg fuel st root = .ok res) :
+    (∀ e ∈ res.trace, ∃ r, Justified R (fun g => ∃ e' ∈ res.trace, e'.computed = none ∧ e'.th = g) r ∧
+      canProve r e.th = true) ∧
+    (∀ s, res.th = some s → ∃ r, Justified R (fun g => ∃ e' ∈ res.trace, e'.computed = none ∧ e'.th = g) r ∧
+      canProve r s = true) :=
+  hCheckProof_good h _ (fun e he hn => ⟨e, he, hn, rfl⟩)
+
+example : ∃ res, hCheckProof (Toy.rules []) ⟨true, false, 0⟩ 5 exShared 0 = .ok res ∧
+    res.trace.map (·.computed) = [some ⟨[], 1⟩, some ⟨[], 1⟩] := by
+  refine ⟨_, rfl, ?_⟩; rfl
+
+/-- `find_item` on the object graph resolves by position only: a successful lookup has no negative
+component and is not empty, and returns the entry `b` of the list of the block at `a` where the id is
+`a ++ [b]` (so negative, empty and out-of-range ids resolve to nothing).  If moreover `can_depend_on`
+allowed the citation from `pos`, that entry stands, in a block on the way to `pos`, strictly before
+the entry leading to `pos` — a place the walk has finished before it reached `pos`. -/
+theorem hFind_only_walked_positions (st : Store) (root : Nat) (p : List Int) (j : Nat)
+    (h : hFind st root p = some j) :
+    (∀ x ∈ p, 0 ≤ x) ∧
+    (∃ a b la, p = posId (a ++ [b]) ∧ listAt st root a = some la ∧ la[b]? = some j) ∧
+    (∀ pos, Gen.can_depend_on (posId pos) p = some true →
+      ∃ a x suf b la, pos = a ++ x :: suf ∧ b < x ∧ p = posId (a ++ [b]) ∧
+        listAt st root a = some la ∧ la[b]? = some j) := by
+  obtain ⟨q, hq, hne⟩ := hFind_some_nonneg h
+  refine ⟨?_, ?_, fun pos hd => hFind_visible hd h⟩
+  · intro x hx; subst hq; simp [posId] at hx; obtain ⟨n, _, rfl⟩ := hx; simp
+  · rcases list_nil_or_snoc q with e | ⟨a, b, e⟩
+    · exact absurd e hne
+    · subst e; subst hq
+      rw [hFind_posId] at h
+      simp only [Option.bind_eq_some_iff] at h
+      obtain ⟨la, hla, hj⟩ := h
+      exact ⟨a, b, la, rfl, hla, hj⟩
+
+example : hFind exShared 0 [-1] = none ∧ hFind exShared 0 [] = none ∧ hFind exShared 0 [5] = none ∧
+    hFind exShared 0 [1, 0] = some 0 ∧ hFind exShared 0 [1, -1] = none := by decide
 
 end Holpy.C02
